@@ -3,10 +3,15 @@
 package c10
 
 import (
+	"context"
+	"encoding/json"
 	"fmt"
 	"os"
+	"os/exec"
 	"regexp"
+	"runtime"
 	"runtime/debug"
+	"strings"
 	"testing"
 	"time"
 
@@ -16,11 +21,20 @@ import (
 	"verifharness/props/h2kit"
 )
 
-func TestMain(m *testing.M) { kit.Main(m, "C10") }
+func TestMain(m *testing.M) {
+	if raw := os.Getenv("C10_CHILD_CASE"); raw != "" {
+		childMain(raw)
+		return
+	}
+	kit.Main(m, "C10")
+}
 
 // Case is one session brought into State, then ended by Event.
 //
-// State: handshake (the relay has dialled the server; the client has not sent its
+// State: queued-s2c (40 DATA frames of the server wait in the relay behind the client's
+// zero stream window: more than the relay's output channel holds) | idle-no-alpn (as idle, but the upstream completed the TLS handshake without
+// selecting an application protocol; whatever the relay makes of that, both connections
+// must be released when Proxy returns) | handshake (the relay has dialled the server; the client has not sent its
 // preface yet - only bad-preface and client-close apply) | idle (SETTINGS exchanged) | mid (one stream open, data exchanged both
 // ways) | blocked-c2s / blocked-s2c (DATA and trailers queued in the relay
 // behind the receiver's zero stream window) | backedup-c2s / backedup-s2c (the
@@ -53,9 +67,9 @@ type Case struct {
 var collect = os.Getenv("C10_COLLECT") != ""
 
 var (
-	states   = []string{"handshake", "idle", "mid", "blocked-c2s", "blocked-s2c", "backedup-c2s", "backedup-s2c"}
-	events   = []string{"bad-preface", "closing-first", "server-close-slow-client", "client-close", "server-close", "server-reset", "client-write-fail", "client-ack-write-fail", "client-proto-error", "server-proto-error", "closing"}
-	variants = []string{"continuation-without-headers", "bad-padding", "settings-bad-length"}
+	states   = []string{"handshake", "idle-no-alpn", "queued-s2c", "idle", "mid", "blocked-c2s", "blocked-s2c", "backedup-c2s", "backedup-s2c"}
+	events   = []string{"bad-preface", "closing-first", "server-close-slow-client", "server-close-slow-client-credit", "server-close-slow-client-credit-close", "client-close", "server-close", "server-reset", "client-write-fail", "client-ack-write-fail", "client-proto-error", "server-proto-error", "closing"}
+	variants = []string{"continuation-without-headers", "bad-padding", "settings-bad-length", "max-frame-size-zero"}
 
 	h2RE = regexp.MustCompile(`github\.com/google/martian/v3/h2\.`)
 )
@@ -63,9 +77,24 @@ var (
 // valid excludes events that the relay cannot perceive in the state: a
 // malformed frame from the side whose frames the relay has stopped reading
 // (its reader is parked on the full output channel) never reaches it.
+// isolated cases run in a process of their own: what they can set off in the relay
+// (a loop that allocates without bound) cannot be stopped from outside and would take
+// the whole check down with it.
+func isolated(c Case) bool { return c.Variant == "max-frame-size-zero" }
+
 func valid(c Case) bool {
+	if c.Variant == "max-frame-size-zero" && c.State != "mid" {
+		return false // needs an open stream on which the other side sends DATA
+	}
 	if c.Event == "server-close-slow-client" && c.State != "mid" {
 		return false
+	}
+	credit := c.Event == "server-close-slow-client-credit" || c.Event == "server-close-slow-client-credit-close"
+	if credit != (c.State == "queued-s2c") && !(c.State == "queued-s2c" && (c.Event == "server-close" || c.Event == "closing")) {
+		return false
+	}
+	if c.State == "idle-no-alpn" && c.Event != "client-close" && c.Event != "server-close" && c.Event != "closing" {
+		return false // three ways to end it are enough for this variant of idle
 	}
 	if (c.State == "handshake") != (c.Event == "bad-preface" || c.Event == "closing-first" || (c.State == "handshake" && c.Event == "client-close")) {
 		return false // before the preface only the client can end the session, and only then can the preface be wrong
@@ -91,6 +120,9 @@ func normalise(c Case) Case {
 	if c.Event == "client-write-fail" {
 		c.Traffic = true // a failing write is only noticed when something is written
 	}
+	if c.Variant == "max-frame-size-zero" {
+		c.Traffic = true // the value only matters once the other side sends DATA toward its author
+	}
 	if c.State == "handshake" {
 		c.Traffic = false // there is no session to send on
 	}
@@ -109,7 +141,7 @@ func arrange(c Case, s *h2kit.Session, bound time.Duration) string {
 	case "blocked-c2s":
 		sInit = []h2kit.Setting{{ID: 4, Val: 0}}
 		cl.SetAutoAck(false) // the client has not processed the server's SETTINGS yet
-	case "blocked-s2c":
+	case "blocked-s2c", "queued-s2c":
 		cInit = []h2kit.Setting{{ID: 4, Val: 0}}
 		sv.SetAutoAck(false)
 	case "backedup-c2s":
@@ -129,14 +161,14 @@ func arrange(c Case, s *h2kit.Session, bound time.Duration) string {
 	if c.State == "blocked-c2s" {
 		svAcks = 0
 	}
-	if c.State == "blocked-s2c" {
+	if c.State == "blocked-s2c" || c.State == "queued-s2c" {
 		clAcks = 0
 	}
 	if !sv.Wait(bound, func(r *h2kit.Rec) bool { return (r.PrefaceOK && len(r.Settings) >= 1 && r.Acks >= svAcks) || r.Done }) ||
 		!cl.Wait(bound, func(r *h2kit.Rec) bool { return (len(r.Settings) >= 1 && r.Acks >= clAcks) || r.Done }) {
 		return "preface, SETTINGS and acknowledgements were not forwarded"
 	}
-	if c.State == "idle" {
+	if c.State == "idle" || c.State == "idle-no-alpn" {
 		return ""
 	}
 	cl.WriteHeaders(h2kit.HeadersSpec{Stream: 1, Pad: -1, Fields: reqFields})
@@ -155,15 +187,21 @@ func arrange(c Case, s *h2kit.Session, bound time.Duration) string {
 			!cl.Wait(bound, func(r *h2kit.Rec) bool { return r.DataBytes[1] >= 1000 || r.Done }) {
 			return "DATA was not forwarded"
 		}
-	case "blocked-c2s", "blocked-s2c":
+	case "blocked-c2s", "blocked-s2c", "queued-s2c":
 		S, R := cl, sv
-		if c.State == "blocked-s2c" {
+		if c.State != "blocked-c2s" {
 			S, R = sv, cl
 		}
-		for i := 0; i < 3; i++ {
-			S.WriteData(1, kit.Bytes(uint64(i), 1000), -1, false)
+		if c.State == "queued-s2c" {
+			for i := 0; i < 40; i++ {
+				S.WriteData(1, kit.Bytes(uint64(i), 100), -1, false)
+			}
+		} else {
+			for i := 0; i < 3; i++ {
+				S.WriteData(1, kit.Bytes(uint64(i), 1000), -1, false)
+			}
+			S.WriteHeaders(h2kit.HeadersSpec{Stream: 1, Pad: -1, EndStream: true, Fields: []h2kit.Field{{N: "x-trail", V: "1"}}})
 		}
-		S.WriteHeaders(h2kit.HeadersSpec{Stream: 1, Pad: -1, EndStream: true, Fields: []h2kit.Field{{N: "x-trail", V: "1"}}})
 		S.WritePing(false, h2kit.MarkerPing(1))
 		if !R.Wait(bound, func(r *h2kit.Rec) bool { return r.HasMarker(1) || r.Done }) {
 			return "barrier PING was not forwarded"
@@ -198,6 +236,10 @@ func malformed(ep *h2kit.Endpoint, variant string) {
 		ep.WriteRaw(0x0, 0x8, 1, []byte{200, 'a'})
 	case "settings-bad-length":
 		ep.WriteRaw(0x4, 0, 0, []byte{0, 4, 0, 0, 1})
+	case "max-frame-size-zero":
+		// well-formed SETTINGS frame, invalid value (RFC 7540 6.5.2: values below 16 384
+		// are a connection error PROTOCOL_ERROR)
+		ep.WriteRaw(0x4, 0, 0, []byte{0, 5, 0, 0, 0, 0})
 	}
 }
 
@@ -209,7 +251,13 @@ func keepSending(ep *h2kit.Endpoint, c Case) {
 	ep.WritePing(false, [8]byte{2, 2, 3, 4, 5, 6, 7, 8})
 }
 
-func cell(c Case) string { return c.State + "+" + c.Event }
+func cell(c Case) string {
+	if c.Variant == "max-frame-size-zero" {
+		// this one is not like the other malformed frames: the framer lets it through
+		return c.State + "+" + strings.Replace(c.Event, "proto-error", "settings-max-frame-size-zero", 1)
+	}
+	return c.State + "+" + c.Event
+}
 
 // runOnce executes the case; slow reports that a bounded wait expired.
 func runOnce(c Case, bound time.Duration) (v kit.Verdict, slow bool) {
@@ -223,23 +271,48 @@ func runOnce(c Case, bound time.Duration) (v kit.Verdict, slow bool) {
 		o.ServerRcvBuf = 8 << 10
 	}
 	o.PreClosed = c.Event == "closing-first"
+	o.NoALPN = c.State == "idle-no-alpn"
+	// A connection that is merely dropped is closed by its finalizer at some later
+	// garbage collection; that is not "closed when Proxy returns". Collections are
+	// held off until the upstream connection has been looked at.
+	gc := debug.SetGCPercent(-1)
+	restoreGC := func() {
+		if gc != -2 {
+			debug.SetGCPercent(gc)
+			gc = -2
+		}
+	}
+	defer restoreGC()
 	s, err := h2kit.Open(o)
 	if err != nil {
 		return kit.Failf("C10/setup/"+c.State+"/relay-did-not-connect", "%v", err), true
 	}
 	defer s.Teardown(bound)
+	// early: Config.Proxy gave the session up on its own before the event. That is its
+	// right (for instance when it does not like what the upstream negotiated), but the
+	// connections must be released all the same.
+	early, earlyErr := false, error(nil)
 	if c.State == "handshake" {
 		// nothing to arrange: Open has seen the relay's upstream connection
 	} else if msg := arrange(c, s, bound); msg != "" {
-		return kit.Failf("C10/setup/"+c.State+"/state-not-reached", "%s within %v", msg, bound), true
+		if early, earlyErr = s.ProxyReturned(0); !early {
+			return kit.Failf("C10/setup/"+c.State+"/state-not-reached", "%s within %v", msg, bound), true
+		}
 	}
 	if ret, perr := s.ProxyReturned(0); ret {
-		return kit.Failf("C10/setup/"+c.State+"/proxy-returned-early", "Config.Proxy returned while the session was being set up: %v", perr), false
+		early, earlyErr = true, perr
+	}
+	if early && c.State != "idle-no-alpn" {
+		v.Addf("C10/setup/"+c.State+"/proxy-returned-early", "Config.Proxy returned while the session was being set up: %v", earlyErr)
 	}
 
 	// the terminating event
 	cl, sv := s.Client, s.Server
-	switch c.Event {
+	event := c.Event
+	if early {
+		event = "" // the session is over already
+	}
+	switch event {
 	case "closing-first":
 		// the channel was closed before Proxy was called; the session itself starts normally
 		cl.WritePreface()
@@ -254,6 +327,20 @@ func runOnce(c Case, bound time.Duration) (v kit.Verdict, slow bool) {
 		s.ServerTLS().Close()
 		time.Sleep(100 * time.Millisecond) // sets the scene only: the reader has seen the end by now
 		s.Duplex.ResumeRelayWrites()
+	case "server-close-slow-client-credit", "server-close-slow-client-credit-close":
+		s.Duplex.StallRelayWrites()
+		sv.WritePriority(3, h2kit.Prio{Weight: 1}) // one frame for the writer to get stuck on
+		kit.Eventually(bound, func() bool { return s.Duplex.StalledWrites() >= 1 })
+		s.ServerTLS().Close()
+		time.Sleep(100 * time.Millisecond) // (sets the scene: the server-to-client reader has seen the end)
+		cl.WriteWindowUpdate(1, 1<<20)     // 40 frames become eligible; the output channel holds 15
+		kit.Eventually(bound, func() bool { return s.Duplex.Pending() == 0 })
+		time.Sleep(50 * time.Millisecond)
+		if event == "server-close-slow-client-credit" {
+			s.Duplex.ResumeRelayWrites()
+		} else {
+			s.Duplex.HarnessSide().Close()
+		}
 	case "bad-preface":
 		s.Duplex.HarnessSide().Write([]byte("GET / HTTP/1.1\r\nHost: x\r\n\r\n"))
 	case "client-close":
@@ -292,11 +379,11 @@ func runOnce(c Case, bound time.Duration) (v kit.Verdict, slow bool) {
 	case "closing":
 		s.CloseClosing()
 	}
-	if c.Traffic {
+	if c.Traffic && !early {
 		switch c.Event {
 		case "client-close", "client-write-fail", "client-ack-write-fail", "client-proto-error":
 			go keepSending(sv, c)
-		case "server-close", "server-reset", "server-proto-error", "server-close-slow-client":
+		case "server-close", "server-reset", "server-proto-error", "server-close-slow-client", "server-close-slow-client-credit":
 			go keepSending(cl, c)
 		default:
 			go keepSending(sv, c)
@@ -316,17 +403,6 @@ func runOnce(c Case, bound time.Duration) (v kit.Verdict, slow bool) {
 	if kit.Known(upSig) {
 		upBound = bound / 6
 	}
-	// A connection that is merely dropped is closed by its finalizer at some later
-	// garbage collection; that is not "closed when Proxy returns". Collections are
-	// held off until the upstream connection has been looked at.
-	gc := debug.SetGCPercent(-1)
-	restoreGC := func() {
-		if gc != -2 {
-			debug.SetGCPercent(gc)
-			gc = -2
-		}
-	}
-	defer restoreGC()
 	returned, _ := s.ProxyReturned(retBound)
 	if !returned {
 		return kit.Failf(retSig, "state %s, event %s%s: Config.Proxy had not returned %v after the event; relay goroutines: %s", c.State, c.Event, vsuffix(c), retBound, blockedAt()), true
@@ -405,7 +481,11 @@ var patience h2kit.Patience
 func run(c Case) kit.Verdict {
 	h2kit.ShortShrink()
 	bound, revalidate := patience.Bound()
-	v, slow := runOnce(c, bound)
+	once := runOnce
+	if isolated(normalise(c)) {
+		once = runInChild
+	}
+	v, slow := once(c, bound)
 	if !slow {
 		return v
 	}
@@ -424,7 +504,7 @@ func run(c Case) kit.Verdict {
 		patience.Spent(bound)
 		return v
 	}
-	v2, slow2 := runOnce(c, 3*bound)
+	v2, slow2 := once(c, 3*bound)
 	if !slow2 {
 		kit.Inconclusive("matrix")
 	} else if len(v2) > 0 {
@@ -487,7 +567,7 @@ func matrixCases(thorough bool, yield func(Case) bool) {
 			if ev == "client-proto-error" || ev == "server-proto-error" {
 				vs = variants
 				if !thorough {
-					vs = variants[:1]
+					vs = []string{variants[0], "max-frame-size-zero"} // (the latter only exists in state mid)
 				}
 			}
 			for _, va := range vs {
@@ -496,7 +576,7 @@ func matrixCases(thorough bool, yield func(Case) bool) {
 						if !thorough && (traffic || procs != 0) {
 							continue
 						}
-						if thorough && ev == "client-write-fail" && !traffic {
+						if thorough && (ev == "client-write-fail" || va == "max-frame-size-zero") && !traffic {
 							continue // normalise would make it the same case as traffic=true
 						}
 						c := normalise(Case{State: st, Event: ev, Variant: va, Traffic: traffic, Procs: procs})
@@ -537,4 +617,78 @@ func TestCollect(t *testing.T) {
 		}
 		return true
 	})
+}
+
+// ---------------------------------------------------------------- isolated cases
+
+const childHeapLimit = 256 << 20
+
+// childMain runs one case in this (child) process and prints its verdict. A
+// watchdog ends the process when the heap grows beyond childHeapLimit.
+func childMain(raw string) {
+	var c Case
+	if err := json.Unmarshal([]byte(raw), &c); err != nil {
+		fmt.Println("CHILD-ERROR", err)
+		os.Exit(2)
+	}
+	bound, err := time.ParseDuration(os.Getenv("C10_CHILD_BOUND"))
+	if err != nil {
+		bound = kit.T()
+	}
+	c = normalise(c)
+	go func() {
+		for {
+			time.Sleep(20 * time.Millisecond)
+			var m runtime.MemStats
+			runtime.ReadMemStats(&m)
+			if m.HeapAlloc > childHeapLimit {
+				out, _ := json.Marshal(kit.Failure{Sig: "C10/resources/" + cell(c) + "/relay-allocates-without-bound",
+					Msg: fmt.Sprintf("state %s, event %s%s: the relay's heap grew beyond %d MiB after the event; relay goroutines: %s", c.State, c.Event, vsuffix(c), childHeapLimit>>20, blockedAt())})
+				fmt.Printf("CHILD-FAIL %s\n", out)
+				os.Exit(0)
+			}
+		}
+	}()
+	v, slow := runOnce(c, bound)
+	for _, f := range v {
+		out, _ := json.Marshal(f)
+		fmt.Printf("CHILD-FAIL %s\n", out)
+	}
+	if slow {
+		fmt.Println("CHILD-SLOW")
+	}
+	fmt.Println("CHILD-DONE")
+	os.Exit(0)
+}
+
+// runInChild executes the case in a child process (the test binary itself).
+func runInChild(c Case, bound time.Duration) (v kit.Verdict, slow bool) {
+	raw, _ := json.Marshal(c)
+	ctx, cancel := context.WithTimeout(context.Background(), 6*bound+10*time.Second)
+	defer cancel()
+	cmd := exec.CommandContext(ctx, os.Args[0], "-test.run", "^$")
+	cmd.Env = append(os.Environ(), "C10_CHILD_CASE="+string(raw), "C10_CHILD_BOUND="+bound.String(), "GOMEMLIMIT=off")
+	out, err := cmd.Output()
+	done := false
+	for _, line := range strings.Split(string(out), "\n") {
+		switch {
+		case strings.HasPrefix(line, "CHILD-FAIL "):
+			var f kit.Failure
+			if json.Unmarshal([]byte(strings.TrimPrefix(line, "CHILD-FAIL ")), &f) == nil {
+				v = append(v, f)
+			}
+			if strings.Contains(f.Sig, "/resources/") {
+				done = true
+			}
+		case line == "CHILD-SLOW":
+			slow = true
+		case line == "CHILD-DONE":
+			done = true
+		}
+	}
+	if !done {
+		v.Addf("C10/return/"+cell(normalise(c))+"/isolated-case-did-not-finish", "the child process running the case did not report a verdict (%v); output: %.300s", err, out)
+		slow = true
+	}
+	return v, slow
 }
